@@ -662,6 +662,42 @@ func (s *state) store(addr, v *Term) {
 		}
 		break
 	}
+	// a component of a variable that was assigned as a whole (`*t0 = p; t0.value = x`: the spilled value receiver of a
+	// method that changes its copy): the whole-variable entry is taken apart into its components first, otherwise the
+	// next whole load would return the value from before this store
+	for anc := addr; anc.Op == "fieldaddr" || anc.Op == "indexaddr"; {
+		anc = anc.Args[0]
+		ak := anc.String()
+		whole, ok := s.mem[ak]
+		if !ok {
+			continue
+		}
+		delete(s.mem, ak)
+		delete(s.memAddr, ak)
+		if whole.Type == nil {
+			continue
+		}
+		switch u := whole.Type.Underlying().(type) {
+		case *types.Struct:
+			for i := 0; i < u.NumFields(); i++ {
+				fa := &Term{Op: "fieldaddr", Args: []*Term{anc}, Obj: u.Field(i)}
+				if _, has := s.mem[fa.String()]; !has {
+					s.mem[fa.String()] = fieldOf(whole, u.Field(i))
+					s.memAddr[fa.String()] = fa
+				}
+			}
+		case *types.Array:
+			if u.Len() <= 256 {
+				for i := int64(0); i < u.Len(); i++ {
+					ia := &Term{Op: "indexaddr", Args: []*Term{anc, intConst(i)}}
+					if _, has := s.mem[ia.String()]; !has {
+						s.mem[ia.String()] = indexOf(whole, intConst(i))
+						s.memAddr[ia.String()] = ia
+					}
+				}
+			}
+		}
+	}
 	// kill entries that extend this address, and may-alias entries (same last field, other base)
 	lf := lastField(addr)
 	for k, a := range s.memAddr {
